@@ -107,8 +107,17 @@ static bool eval_point(const Pt& p, Vec& res, bool via_conversion) {
 }
 static bool same_vec(const Vec& a, const Vec& b) { if (a.size() != b.size()) return false; for (size_t i = 0; i < a.size(); ++i) if (!vh::same_bits(a[i], b[i])) return false; return true; }
 
+static std::string hash_of(const Vec& v, bool ok) {
+   uint64_t h = 1469598103934665603ULL; auto mix = [&](const void* q, size_t n) { const unsigned char* b = static_cast<const unsigned char*>(q); for (size_t k = 0; k < n; ++k) { h ^= b[k]; h *= 1099511628211ULL; } };
+   mix(&ok, sizeof ok); for (double x : v) mix(&x, sizeof x);
+   char buf[32]; std::snprintf(buf, sizeof buf, "%016llx", static_cast<unsigned long long>(h)); return buf;
+}
+
 static void single_case(vh::Rng& r) {
    gen::CerrCapture cap;
+   // first thing in the case: all results of a point with its own SM inputs, as a digest. The driver repeats a sample of cases in processes of their
+   // own (--only) and compares: what the bulk process has computed before (function-local statics initialised from the first point, caches) must not matter.
+   { vh::Rng rd(r.next(), 17, 3); Pt d = gen_point(rd); for (int i = 0; i < NSM; ++i) d.smf[i] = rd.chance(0.3) ? 1.0 : rd.U(0.99, 1.01); Vec dv; const bool ok = eval_point(d, dv, false); out->digest(hash_of(dv, ok)); }
    const Pt p = gen_point(r);
    J c = p.mssm ? p.mp.json() : gen::json(p.tb); c.str("model", p.mssm ? "MSSM" : "THDM");
    try {
